@@ -159,6 +159,11 @@ Inductive acase :=
     (* Adds of one absent key: value, 0 ok / 1 exists / 2 busy *)
 | CEmplaceRace (attempts : list (bytes * bool)) (final : option bytes)
     (* Emplaces of one absent key: value, reported busy? *)
+| CReadsFinal (reads : list bytes) (final : option bytes)
+    (* reads of a key made after an Emplace of it had returned, nothing but
+       Emplaces writing it: each shows the value the key holds in the end *)
+| CRemoveRace (attempts : list N) (init : bytes) (final : option bytes)
+    (* Removes of one existing key holding [init]: 0 ok / 1 not found / 2 busy *)
 | CBlocked (writer : bool) (mid hret : N) (calls : list hcall).
     (* memory backend, forced schedule: a call was held inside its critical
        section (a Mutate in its function: [writer], a Walk in its Do: not)
@@ -198,6 +203,16 @@ Definition check_acase (c : acase) : bool :=
       match final with
       | None => match applied with [] => true | _ => false end
       | Some v => existsb (fun a => bytes_eqb (fst a) v) applied
+      end
+  | CReadsFinal reads final =>
+      forallb (fun r => opt_bytes_eqb (Some r) final) reads
+  | CRemoveRace attempts init final =>
+      let oks := filter (fun a => a =? 0) attempts in
+      let nfs := filter (fun a => a =? 1) attempts in
+      match oks with
+      | [] => opt_bytes_eqb final (Some init) && match nfs with [] => true | _ => false end
+      | [_] => opt_bytes_eqb final None
+      | _ => false
       end
   | CBlocked writer mid hret calls => blocked_ok writer mid hret calls
   end.
